@@ -17,6 +17,22 @@ def run(ctx):
         for nm in problems.ALL:
             ps.append(problems.gen_problem(rng, A, alg_name=nm, with_constraints=True))
             ps.append(problems.gen_problem(rng, A, alg_name=nm, box="fixed"))
+        # every kind of callback (objective, scalar / vector inequality, scalar / vector equality), each with its own data record,
+        # with and without fixed coordinates (elimination wrapper) and as a subsidiary problem (AUGLAG / MLSL)
+        from ..common import hexd
+        for nm in problems.ALL:
+            aid = A.id(nm)
+            if aid not in ctx.alg["ineq"]:
+                continue
+            for rep in range(8 if ctx.thorough else 3):
+                p = problems.gen_problem(rng, A, alg_name=nm, n=4, with_constraints=False, box=("fixed" if rep % 3 != 2 else "finite"), maxeval=rng.choice([20, 60]))
+                if nm == "NLOPT_GN_AGS":
+                    p["ineq"] = "s:1:%s:%s:0;s:0:%s:%s:1" % (hexd(0.0), hexd(rng.uniform(1, 3)), hexd(1e-6), hexd(rng.uniform(1, 3)))
+                else:
+                    p["ineq"] = "s:1:%s:%s:0;v:2:0:%s:%s:1" % (hexd(0.0), hexd(rng.uniform(1, 3)), problems.hl([1e-6, 0.0]), hexd(rng.uniform(1, 3)))
+                if aid in ctx.alg["eq"]:
+                    p["eq"] = "s:0:%s:%s:5;v:2:2:-:%s:6" % (hexd(1e-6), hexd(rng.uniform(-0.3, 0.3)), hexd(rng.uniform(-0.2, 0.2)))
+                ps.append(p)
         batch = runcheck.run_batch(ctx, bdir, A, ps, [lambda ri: monitors.mon_args(ri, runcheck.DERIV_FREE)], "all algorithms and nestings")
         ctx.sample({"spec": batch[0][1].spec})
         ctx.cov["unproved"] = ["gradient buffer sizes inside the numeric cores (sanitizer builds of C10 observe them)"]
